@@ -1,3 +1,11 @@
 // Pasted into transports/pnet/src/crypt_writer.rs (mod verif) under cfg(kani).
 #[allow(unused_imports)]
 use super::*;
+
+// C19 (pnet write path): verbatim poll_write / poll_flush / poll_close bodies on a mock
+// cipher + recording inner writer, calling the real poll_flush_buf.
+pub(crate) mod c19w {
+    #[allow(unused_imports)]
+    use super::super::*;
+    include!(concat!(env!("LIBP2P_VERIF"), "/units/C19/crypt_writer.rs"));
+}
